@@ -19,11 +19,11 @@ TEXT = {
  "C03": ("Runtime monitor: open-callback counter invariant at every event + saturation probe after generated outcome histories; bounded progress decided in virtual time.",
          "invariant monitor on recorded traces + saturation probe"),
  "C04": ("Runtime monitor: outstanding-message counter (yielded - finished) checked after every event for all 20 (A,P) pairs under backlog.",
-         "counter invariant over recorded yield/finish events"),
+         "counter invariant over recorded yield/finish/ack events + configuration wiring probe (command line / run_receiver_task -> Receiver)"),
  "C05": ("Runtime monitor in virtual time: drain, at-most-one-further-message, exact N and bounded-progress return deadlines, with stop-instant sweeps; known finding F6 classified by mechanism.",
          "virtual-time bounded-progress oracle over shutdown histories"),
  "C06": ("Runtime monitor: every dependency/task echoes the Context it sees; the owner is known independently via a contextvar bound to the callback's asyncio task; decisive interleavings are forced by slow async dependencies.",
-         "ownership monitor (contextvar vs echoed Context) under forced interleavings"),
+         "ownership monitor (contextvar vs echoed Context) under forced interleavings; gather()/second-broker/forked-id probes"),
  "C07": ("Runtime monitor on the objects handed to the result backend compared with the scripted outcome of each execution (count, id, is_err, value, error class/args, timeout, labels), with injected backend failures.",
          "reference-outcome comparison at the result-backend boundary"),
  "C08": ("Differential runtime check: generated task signatures and argument splits go through the real kicker -> formatter -> Receiver.callback path; received values are compared (strict type+value) with an independent binding/conversion model.",
@@ -45,9 +45,9 @@ TEXT = {
  "C16": ("Runtime monitor of on_ready callback sequences and decoded payloads, and of LabelScheduleSource listings before/after firings against a multiset model.",
          "callback-sequence and multiset-model monitor"),
  "C17": ("Fault enumeration: the real ProcessManager runs in a fake process world; all event histories up to the depth bound are enumerated for every max_fails plus random long histories; oracle over the recorded start/terminate/join/is_alive trace.",
-         "exhaustive fault-history enumeration in a fake process world + trace oracle"),
+         "exhaustive fault-history enumeration in a fake process world (events also injected between any two calls into it) + trace oracle; strace cross-check on real processes (thorough)"),
  "C18": ("Fault enumeration as C17 with the budget/reload/shutdown oracle over return value, is_alive observations, per-tick restarts and os.kill events.",
-         "exhaustive fault-history enumeration in a fake process world + trace oracle"),
+         "exhaustive fault-history enumeration in a fake process world (events also injected between any two calls into it) + trace oracle; strace cross-check on real processes (thorough)"),
  "C19": ("Runtime check: generated exception graphs go through the four TaskiqResult round trips; oracle for totality, class/args fidelity or accepted stand-in, and cause/context/suppress along a path-set walk; known finding F9 classified by mechanism.",
          "generated object graphs + round-trip oracle"),
  "C20": ("Runtime sanitizer: sys.monitoring CALL events from taskiq code objects, self-recording traps, import audit hook while crafted payloads are loaded through three entry points.",
